@@ -393,10 +393,33 @@ func runC19Route(c *Ctx) {
 			open[s.addr] = s
 		}
 	}
+	coord.ResetLog()
+	var opened []*FakeSession
 	for _, a := range addrs {
 		if open[a] == nil {
 			open[a] = coord.OpenSessionAt(a)
+			opened = append(opened, open[a])
 		}
+	}
+	time.Sleep(60 * time.Millisecond)
+	// every session that has just been opened hears the client announce itself as transaction manager — on
+	// that session, not on whichever one the load balancer picks
+	if c.Want("route-announce") {
+		heard := map[int]bool{}
+		for _, l := range coord.Snapshot() {
+			if _, ok := l.Msg.Body.(message.RegisterTMRequest); ok {
+				heard[l.Session] = true
+			}
+		}
+		missing := []string{}
+		for _, s := range opened {
+			if !heard[s.id] {
+				missing = append(missing, s.addr)
+			}
+		}
+		c.Out.Case("route-announce", "C19", "skip", "skip")
+		c.Out.Oracle("route-announce", len(missing) == 0, "new_session_not_announced_on", fmt.Sprintf("sessions opened to %v; no RegisterTMRequest was written to %v", addrs[1:], missing))
+		c.Out.Tag("route-announce", "nontrivial=1")
 	}
 	defer func() {
 		for _, a := range addrs[1:] {
